@@ -609,7 +609,23 @@ impl<'a> QGen<'a> {
             }
             3 => {
                 let f = rng.pick(&["in", "nin", "none_of", "any_of", "subset_of"]);
-                let a = if rng.chance(1, 2) { "@".to_string() } else { self.singular(rng) };
+                let a = if rng.chance(1, 4) {
+                    // a literal argument. Never a float literal with an integral value: whether `2.0`
+                    // and `2` are equal members of a list is PartialEq's business, and an
+                    // implementation whose From<f64> keeps integral values in integer form is entitled
+                    // to its own answer there.
+                    match rng.weighted(&[5, 2, 3, 1, 1]) {
+                        0 => rng.pick(&["0", "1", "-1", "2", "3", "100", "10", "9007199254740991"]).to_string(),
+                        1 => rng.pick(&["1.5", "-0.5", "2.5", "1e-3"]).to_string(),
+                        2 => quote_single(*rng.pick(STRINGS)),
+                        3 => rng.pick(&["true", "false"]).to_string(),
+                        _ => "null".to_string(),
+                    }
+                } else if rng.chance(1, 2) {
+                    "@".to_string()
+                } else {
+                    self.singular(rng)
+                };
                 let b = if rng.chance(2, 3) {
                     format!("${}", {
                         let n = self.name(rng);
